@@ -172,7 +172,7 @@ Print Assumptions C20_const_integrated_is_integral.
 
 Theorem C20_run_encloses_gmrf : forall v x tau,
   rel (gmrf_q NumR (ln (2 * PI)) v x tau) (gmrf_q NumI ln2pi_I v x tau).
-Proof. intros. apply gmrf_enclosed, ln2pi_enclosed. Qed.
+Proof. intros v x tau. exact (gmrf_enclosed _ _ v x tau ln2pi_enclosed). Qed.
 Print Assumptions C20_run_encloses_gmrf.
 
 Theorem C20_run_encloses_precision_matrix : forall v tau n,
@@ -183,7 +183,7 @@ Theorem C20_run_encloses_gmrf_integrated : forall alpha beta ga Ga ga' Ga' v x,
   rel ga Ga -> rel ga' Ga' ->
   rel (gmrf_integrated_q NumR (ln (2 * PI)) alpha beta ga ga' v x)
       (gmrf_integrated_q NumI ln2pi_I alpha beta Ga Ga' v x).
-Proof. intros. apply gmrf_integrated_enclosed; auto using ln2pi_enclosed. Qed.
+Proof. intros alpha beta ga Ga ga' Ga' v x Ha Ha'. exact (gmrf_integrated_enclosed _ _ alpha beta ga Ga ga' Ga' v x ln2pi_enclosed Ha Ha'). Qed.
 
 Theorem C20_run_encloses_const_integrated : forall alpha beta ga Ga gm Gm tips coals,
   rel ga Ga -> rel gm Gm ->
@@ -192,11 +192,13 @@ Theorem C20_run_encloses_const_integrated : forall alpha beta ga Ga gm Gm tips c
 Proof. exact const_integrated_enclosed. Qed.
 
 Theorem C20_run_encloses_suffstats : forall grid tips coals,
-  list_R R I.type rel (skyride_ss_q NumR tips coals) (skyride_ss_q NumI tips coals) /\
-  list_R R I.type rel (skygrid_ss_q NumR grid tips coals) (skygrid_ss_q NumI grid tips coals) /\
-  skygrid_counts_q NumR grid tips coals = skygrid_counts_q NumI grid tips coals.
+  (list_R R I.type rel (skyride_ss_q NumR tips coals) (skyride_ss_q NumI tips coals) *
+   list_R R I.type rel (skygrid_ss_q NumR grid tips coals) (skygrid_ss_q NumI grid tips coals) *
+   (skygrid_counts_q NumR grid tips coals = skygrid_counts_q NumI grid tips coals))%type.
 Proof.
-  intros. split; [apply skyride_ss_enclosed|]. split; [apply skygrid_ss_enclosed | apply skygrid_counts_same].
+  intros grid tips coals.
+  exact (skyride_ss_enclosed tips coals, skygrid_ss_enclosed grid tips coals,
+         skygrid_counts_same grid tips coals).
 Qed.
 Print Assumptions C20_run_encloses_suffstats.
 
